@@ -17,6 +17,8 @@ Definition ↔ Rust:
 * `readBlob`, `readTree`                      — `IndexEntry::read_data` + `read_encrypted_from_partial`
                                                  (backend/decrypt.rs) + `Tree::from_backend` (blob/tree.rs)
 * `walk`, `newIds`, `subtreesOf`              — `TreeStreamerOnce` (visited set; any node with a subtree is queued)
+* `snapTrees`, `DelMark`, `mustDelete`        — `Repository::check` (repository.rs: the trees handed to `check_repository`),
+                                                 `DeleteOption`, `SnapshotFile::must_delete` (repofile/snapshotfile.rs)
 * `nodeErrs`, `nodePacks`, `rootPacks`        — `check_trees` (`rootPacks` = the root-tree packs inserted since the
                                                  repair of DESIGN §7 #11; `rootFix := false` is the code before it)
 * `checkIndexPacks`                            — which packs enter check's *own* index in `check_packs`:
@@ -91,10 +93,22 @@ structure PFile where
   header : Option (List Blob)
   dec : Nat → Nat → Bool → Res
 
+/-- `SnapshotFile::delete` (`DeleteOption`): `after t` = "remove this snapshot after `t`" (seconds; set by
+`backup --delete-after`), `never` = remove-protection.  Only `forget` looks at it (`must_delete` / `must_keep`). -/
+inductive DelMark
+  | notSet
+  | never
+  | after (t : Int)
+  deriving DecidableEq, Repr
+
 structure Snap where
   tree : Id
   /-- the file's name is the sha256 of its bytes (nothing in `check` or in the read path looks at this) -/
   authentic : Bool
+  /-- the delete mark of the snapshot file.  `Repository::check` hands `check_repository` the root tree of EVERY snapshot
+  `get_all_snapshots` lists and never looks at it; it is in the model so that this can be stated
+  (`Props.C05.check_walks_every_listed_snapshot`). -/
+  mark : DelMark := .notSet
   deriving DecidableEq, Repr
 
 structure Repo where
@@ -278,7 +292,28 @@ def nodePacks (lk : Lookup) (n : Node) : List Id :=
   | .dir => subtreePacks lk n.subtree
   | .other => subtreePacks lk n.subtree
 
+/-- `Repository::check`: `self.get_all_snapshots()?.into_iter().map(|snap| snap.tree).collect()` — the root tree of every
+listed snapshot, in listing order, whatever its delete mark and whatever the time is.  (`roots` / `rootPacks` below are
+`TreeStreamerOnce::new` resp. the root-pack loop of `check_trees` over this list.) -/
+def snapTrees (r : Repo) : List Id := r.snaps.map (·.tree)
+
 def roots (r : Repo) : List Id := newIds [] (r.snaps.map (·.tree))
+
+/-- `SnapshotFile::must_delete(now)`: `matches!(&self.delete, DeleteOption::After(time) if time < now)` -/
+def mustDelete (now : Int) (s : Snap) : Bool :=
+  match s.mark with
+  | .after t => decide (t < now)
+  | _ => false
+
+/-- NOT the code: the repository as a `check` sees it that first drops the snapshots whose delete-after time has passed
+("the next forget removes them anyway").  Such a snapshot is still listed and restorable until somebody runs `forget`;
+`Props.C05.expired_snapshot_skipped_unsound` is the witness that a check over `dropExpired now r` is unsound for `r`. -/
+def dropExpired (now : Int) (r : Repo) : Repo :=
+  { r with snaps := r.snaps.filter (fun s => !mustDelete now s) }
+
+/-- the same repository with other delete marks on its snapshot files -/
+def remark (f : Snap → DelMark) (r : Repo) : Repo :=
+  { r with snaps := r.snaps.map (fun s => { s with mark := f s }) }
 
 def rootPacks (r : Repo) (lk : Lookup) : List Id :=
   (r.snaps.map (·.tree)).filterMap (fun t => (lk .tree t).map (·.pack))
